@@ -27,4 +27,30 @@ CHECKS["C13"] = dict(
              "harness model (definition of the op).",
 )
 
+CHECKS["C18"] = dict(
+        src="checks/c18.cpp", cfg="rel", link="static", engine="A-case-explorer",
+        category="exploration", design_ref="DESIGN.md section 4, C18",
+        technique="bounded-exhaustive enumeration of the entry-point and kernel tables with byte-wise before/after snapshots of every read-only operand and of module/table memory",
+        text="Every case of the entry-point table (element-wise ops, normalisations, dft/idft, svp, small product, vmp; both module "
+             "types, every dispatch configuration, the C02/C05/C08 shape boxes) and of the exported-kernel table (q120 products and "
+             "conversions, NTT, fft/ifft, pointwise products, layout conversions, reim4 kernels, coefficient kernels) is executed with "
+             "every const operand snapshotted including stride padding; after the call each must be bit-identical, and so must every "
+             "block the library allocated for the MODULE / PRECOMP.",
+        note="Bounded shape boxes; snapshots compare the state after the call (a write that restores the old value is C12's concern, "
+             "caught there by write traps).",
+)
+
+CHECKS["C11"] = dict(
+        src="checks/c11.cpp", cfg="asan", link="static", engine="A-case-explorer (ASan)",
+        category="fault_enumeration", design_ref="DESIGN.md section 4, C11",
+        technique="bounded-exhaustive enumeration of entry points x shapes x pointer offsets x prefills under AddressSanitizer with exact-size heap buffers",
+        text="Every case of the entry-point table and of the exported-kernel table is executed in an ASan build of the library with "
+             "heap buffers of exactly the declared extent (scratch exactly *_tmp_bytes, opaque objects exactly bytes_of_*), with "
+             "every buffer at each 8-byte offset and three prefill patterns: a sanitizer report or signal (fork-isolated and attributed "
+             "to the case), a changed byte outside the written extent, or an output that differs between prefills/offsets is a "
+             "violation; every new_*/delete_* pair is run at every m = 1..65536 under a wrapped allocator and must leave no live block.",
+        note="Trusts ASan's red zones (8-byte granularity, which is why offsets are multiples of 8) and the declared extents of "
+             "DESIGN.md appendix A; bounded shape boxes.",
+)
+
 NOT_YET = {}
